@@ -28,6 +28,10 @@ fn main() {
             let s = golden::generate();
             std::fs::write(&args[2], s).unwrap();
         }
+        Some("golden-gen-extra") => {
+            let s = golden::generate_extra();
+            std::fs::write(&args[2], s).unwrap();
+        }
         Some("exec") => {
             let mut real = exec::Real::new();
             let input: Box<dyn BufRead> = match args.get(2) {
@@ -154,7 +158,12 @@ fn main() {
         Some("golden-check") => {
             // golden-check <file> <driver> <out.json>
             let t0 = std::time::Instant::now();
-            let (checks, fails, mlines) = golden::check(&args[2]);
+            let (mut checks, mut fails, mut mlines) = golden::check(&args[2]);
+            // the second part of the corpus, next to the first
+            let (c2, f2, m2) = golden::check_extra(&args[2].replace("pinned-", "pinned-extra-"));
+            checks += c2;
+            fails.extend(f2);
+            mlines.extend(m2);
             let model = run::run_model(&args[3], &mlines);
             let mut mism = vec![];
             for (l, o) in mlines.iter().zip(model.iter()) {
@@ -170,7 +179,7 @@ fn main() {
                 "distinct_traces": 1, "distinct_lines": checks + mlines.len(), "op_hist": {"golden-check": checks, "wire": mlines.len()},
                 "status_hist": {}, "err_kind_hist": {}, "soft_kind_mismatch": 0, "matrix_cells": 0, "matrix_open": 0,
                 "samples": [{"golden_file": args[2], "checks": checks}], "mismatches": mism,
-                "extra": {"rule": "golden corpus: objects serialised by the pinned release (both configurations; several revisions, a disabled right, mixed flavours, five users, empty structure, three headers) are deserialised by the current code and by the Lean wire model, then used (decaps by the recorded openers, refresh with both flags, encaps under the old public key, update, rekey, header decryption) - a test on samples, labelled as such",
+                "extra": {"rule": "golden corpus: objects serialised by the pinned release (both configurations; several revisions, a disabled right, mixed flavours, five users, empty structure, three headers; second part: encapsulations whose 2 / 3 / 4 targets are all hybridized, keys with four revisions, PKE ciphertexts, headers with longer metadata) are deserialised by the current code and by the Lean wire model, then used (decaps by the recorded openers, refresh with both flags, encaps under the old public key, update, rekey, header decryption) - a test on samples, labelled as such",
                     "exhaustive": false, "per_line": true, "oracle_failures": fails_j, "oracle_checked": checks, "campaign": "golden", "wall_s": t0.elapsed().as_secs_f64()},
             });
             std::fs::write(&args[4], serde_json::to_string_pretty(&j).unwrap()).unwrap();
